@@ -40,7 +40,7 @@ def verdict(slacks, eps):
 
 
 # ------------------------------------------------------------------- Lattice
-def lattice_cfgs():
+def lattice_cfgs(tier="quick"):
   out = []
   def add(sizes, **kw):
     out.append(dict(kind="lattice", sizes=sizes, kw=kw))
@@ -65,6 +65,24 @@ def lattice_cfgs():
   add([2, 3], monotonicities=[0, 0], joint_monotonicities=[(0, 1)])
   add([2, 2, 2], monotonicities=[1, 0, 1], edgeworth_trusts=[(0, 1, 1)], monotonic_dominances=[(0, 2)])
   add([3, 3], monotonicities=[1, 1], edgeworth_trusts=[(0, 1, 1)], trapezoid_trusts=[(0, 1, 1)])
+  if tier != "quick":
+    # every pairwise family on every ordered feature pair of unequal-size rank-3 lattices, both
+    # trust directions, plus larger 2-d shapes
+    for sizes in ([2, 2, 3], [3, 2, 2], [2, 3, 2]):
+      for a, b in itertools.permutations(range(3), 2):
+        mono = [0, 0, 0]; mono[a] = 1
+        for d in (1, -1):
+          add(sizes, monotonicities=list(mono), edgeworth_trusts=[(a, b, d)])
+          add(sizes, monotonicities=list(mono), trapezoid_trusts=[(a, b, d)])
+        mono2 = list(mono); mono2[b] = 1
+        add(sizes, monotonicities=mono2, monotonic_dominances=[(a, b)])
+        add(sizes, monotonicities=mono2, range_dominances=[(a, b)])
+        add(sizes, monotonicities=[0, 0, 0], joint_monotonicities=[(a, b)])
+    add([4, 3], monotonicities=[1, 1], edgeworth_trusts=[(1, 0, -1)], output_min=-1.5, output_max=1.5)
+    add([3, 4], monotonicities=[1, 1], range_dominances=[(0, 1)])
+    add([4, 4], monotonicities=[1, 0], trapezoid_trusts=[(0, 1, -1)])
+    add([2, 2, 2, 2], monotonicities=[1, 1, 0, 0], edgeworth_trusts=[(0, 2, 1)], trapezoid_trusts=[(1, 3, -1)],
+        monotonic_dominances=[(0, 1)])
   return out
 
 
@@ -209,25 +227,30 @@ def directed_set(A, n, lo, hi):
 
 
 # --------------------------------------------------------------------- others
-def simple_items():
+def simple_items(tier="quick"):
   out = []
+  thorough = tier != "quick"
   for mono in (1, -1, 0):
     for lo, hi, cmin, cmax in ((None, None, False, False), (-1.5, 1.5, False, False),
                                (-1.0, None, True, False), (None, 1.0, False, True),
                                (-1.0, 1.0, True, True)):
       if (cmin or cmax) and mono == 0:
         continue
-      for nk in (2, 3):
+      for nk in ((2, 3, 4, 5) if thorough else (2, 3)):
         out.append(dict(kind="pwl", mono=mono, lo=lo, hi=hi, cmin=cmin, cmax=cmax, nk=nk))
   for lc in c06.linear_configs("quick"):
+    if thorough and lc["n"] == 3 and not (lc["md"] or lc["rd"]):
+      out.append(dict(kind="linear", lcfg=lc))
+      continue
     if lc["n"] in (2, 3) and (lc["md"] or lc["rd"] or lc["norm"] or any(lc["mono"])):
       if lc["n"] == 3 and not (lc["md"] or lc["rd"]):
         continue
       out.append(dict(kind="linear", lcfg=lc))
   for cc in c06.cat_configs("quick"):
-    if cc["nb"] <= 3 and (cc["pairs"] or cc["lo"] is not None or cc["hi"] is not None):
+    if cc["nb"] <= (4 if thorough else 3) and (cc["pairs"] or cc["lo"] is not None or cc["hi"] is not None):
       out.append(dict(kind="cat", ccfg=cc))
-  for L, dims, terms in ((2, 1, 1), (2, 2, 1), (3, 1, 1), (2, 1, 2)):
+  for L, dims, terms in (((2, 1, 1), (2, 2, 1), (3, 1, 1), (2, 1, 2), (3, 2, 1), (2, 2, 2), (2, 3, 1)) if thorough
+                         else ((2, 1, 1), (2, 2, 1), (3, 1, 1), (2, 1, 2))):
     for mono in itertools.product([0, 1], repeat=dims):
       for bname in ("none", "min", "max", "both"):
         if not any(mono) and bname == "none":
@@ -636,9 +659,11 @@ def work(ctx, item):
 
 
 def run(ctx):
-  items = alpha.rotate(lattice_cfgs() + simple_items(), ctx.seed)
+  items = alpha.rotate(lattice_cfgs(ctx.tier) + simple_items(ctx.tier), ctx.seed)
   ctx.rule = (
-      "every layer kind offering assert_constraints: Lattice (19 configurations covering "
+      "every layer kind offering assert_constraints: Lattice (21 configurations quick; thorough adds every "
+      "pairwise family on every ordered feature pair of the unequal-size rank-3 shapes, 4x3/3x4/4x4 and a "
+      "rank-4 lattice; covering "
       "monotonicity, bounds, Edgeworth, trapezoid, monotonic/range dominance, joint monotonicity) x "
       "ALL kernels of {-1,0,1}^n (n<=6; directed single-violation sets above) x eps {1e-6,1e-3}, "
       "plus 2-unit kernels [feasible|offender] in both orders; PWL x all words of {-2..2}^k x "
